@@ -41,10 +41,23 @@ type permissionMap struct {
 func (m *permissionMap) insert(addr net.Addr, p *permission) bool {
 	m.mutex.Lock()
 	defer m.mutex.Unlock()
-	p.addr = addr
+	p.addr = cloneAddr(addr)
 	m.permMap[ipnet.FingerprintAddr(addr)] = p
 
 	return true
+}
+
+// cloneAddr returns a copy of an address that a caller handed in: the caller is
+// free to change or reuse its own value afterwards.
+func cloneAddr(addr net.Addr) net.Addr {
+	switch a := addr.(type) {
+	case *net.UDPAddr:
+		return &net.UDPAddr{IP: append(net.IP(nil), a.IP...), Port: a.Port, Zone: a.Zone}
+	case *net.TCPAddr:
+		return &net.TCPAddr{IP: append(net.IP(nil), a.IP...), Port: a.Port, Zone: a.Zone}
+	default:
+		return addr
+	}
 }
 
 func (m *permissionMap) find(addr net.Addr) (*permission, bool) {
